@@ -4,6 +4,7 @@ from .. import fanout as F
 from .. import shared as S
 from ..facts import Callee
 from ..paths import enumerate_paths
+from .. import placement as PL
 from ..shapes import coverage, root, Src, SELF, TRANSPARENT
 
 PROP = "C16"
@@ -172,6 +173,34 @@ def check(ctx, report, facts, config):
     report.ob(rule, "Nil::run", not list(nil.normal_calls()), "Nil::run is empty", site=nil.loc(), config=config)
 
 
+def macros(ctx, report, rule="C16.MACRO"):
+    """par![a, b, c,] expands to Par::new(a).with(b).with(c), seq! likewise with Seq (checked on the probe crate's expansions)."""
+    try:
+        fs = [f for f in ctx.all_facts("probe") if f.crate == "shred_probe"]
+    except Exception as e:
+        report.ob(rule, "EXTRACT", False, "probe crate could not be analysed: %s" % str(e)[-300:], config="probe")
+        return
+    f = fs[0]
+    prog = ctx.program(f)
+    for fn, head in (("macro_par3", A.PAR), ("macro_seq3", A.SEQ)):
+        bs = f.find(qname="shred_probe::positive::" + fn)
+        if len(bs) != 1:
+            report.ob(rule, fn, False, "probe function %s not found" % fn, config="probe")
+            continue
+        b = bs[0]
+        bt = prog.bt(b)
+        t = bt.local(0)
+        chain = []
+        while isinstance(t, tuple) and t and t[0] == "call":
+            c = bt.callee(t[1])
+            chain.append((c.name, c.self_head, t[2][1:] if len(t[2]) > 1 else t[2][:1] if c.name == "new" else ()))
+            t = t[2][0] if t[2] and c.name != "new" else None
+        chain.reverse()
+        want = [("new", head, (("param", 1),)), ("with", head, (("param", 2),)), ("with", head, (("param", 3),))]
+        report.ob(rule, fn, chain == want, "%s![a, b, c,] = %s::new(a).with(b).with(c)" % (fn[6:9], head.rsplit("::", 1)[1]) if chain == want else
+                  "macro expands to %s" % (chain,), site=b.loc(), config="probe")
+
+
 def run(ctx, report):
     for config in ctx.configs:
         if not ctx.parallel(config):
@@ -184,3 +213,5 @@ def run(ctx, report):
         report.guard("C16.PAR", par_join, ctx, report, facts, config)
         report.guard("C16.ACC", acc, ctx, report, facts, config)
         report.guard("C16.CHECK", check, ctx, report, facts, config)
+        report.guard("C16.CHECK", PL.intersect_body, ctx, report, "C16.CHECK", facts, config)
+    report.guard("C16.MACRO", macros, ctx, report)
